@@ -94,10 +94,28 @@ impl WithdrawalsBuilder {
         set
     }
 
+    // The ledger keeps withdrawals in a map ordered by reward account: network id first, then the
+    // credential with script hashes before key hashes, then the hash bytes. Reward redeemer
+    // indices refer to that order, whatever the order of insertion.
+    fn ledger_ordered(&self) -> Vec<(&RewardAddress, &(Coin, Option<ScriptWitnessType>))> {
+        let mut entries: Vec<(&RewardAddress, &(Coin, Option<ScriptWitnessType>))> =
+            self.withdrawals.iter().collect();
+        entries.sort_by_key(|(address, _)| {
+            let cred = address.payment_cred();
+            let hash_bytes = match (cred.to_scripthash(), cred.to_keyhash()) {
+                (Some(script_hash), _) => script_hash.to_bytes(),
+                (_, Some(key_hash)) => key_hash.to_bytes(),
+                _ => Vec::new(),
+            };
+            (address.network_id(), !cred.has_script_hash(), hash_bytes)
+        });
+        entries
+    }
+
     pub fn get_plutus_witnesses(&self) -> PlutusWitnesses {
         let tag = RedeemerTag::new_reward();
         let mut scripts = PlutusWitnesses::new();
-        for (i, (_, (_, script_wit))) in self.withdrawals.iter().enumerate() {
+        for (i, (_, (_, script_wit))) in self.ledger_ordered().into_iter().enumerate() {
             if let Some(ScriptWitnessType::PlutusScriptWitness(s)) = script_wit {
                 let index = BigNum::from(i);
                 scripts.add(&s.clone_with_redeemer_index_and_tag(&index, &tag));
@@ -177,8 +195,8 @@ impl WithdrawalsBuilder {
 
     pub fn build(&self) -> Withdrawals {
         let map = self
-            .withdrawals
-            .iter()
+            .ledger_ordered()
+            .into_iter()
             .map(|(k, (v, _))| (k.clone(), v.clone()))
             .collect();
         Withdrawals(map)
